@@ -229,10 +229,17 @@ public:
     if (m.transType == 1) return std::make_shared<bpp::AutoCorrelationTransitionMatrix>(a, "");
     return std::make_shared<SimTransitions>(a, m.A, m.B, 0.5);
   }
-  void buildReplica(Replica& r, int kind, size_t chunk) {
-    r.alph = std::make_shared<SimAlphabet>(m.n);
-    r.trans = makeTrans(r.alph);
-    r.emis = std::make_shared<SimEmissions>(r.alph, m.em, 1.0, 1.0);
+  bool shared = false;                       // the three likelihoods are built on the SAME component objects (constructors take shared_ptr and do not clone)
+  std::shared_ptr<SimAlphabet> cAlph; std::shared_ptr<bpp::HmmTransitionMatrix> cTrans; std::shared_ptr<SimEmissions> cEmis;
+  void buildReplica(Replica& r, int kind, size_t chunk, bool useShared = false) {
+    if (useShared) {
+      if (!cAlph) { cAlph = std::make_shared<SimAlphabet>(m.n); cTrans = makeTrans(cAlph); cEmis = std::make_shared<SimEmissions>(cAlph, m.em, 1.0, 1.0); }
+      r.alph = cAlph; r.trans = cTrans; r.emis = cEmis;
+    } else {
+      r.alph = std::make_shared<SimAlphabet>(m.n);
+      r.trans = makeTrans(r.alph);
+      r.emis = std::make_shared<SimEmissions>(r.alph, m.em, 1.0, 1.0);
+    }
     if (kind == 0) { r.lik.reset(new bpp::RescaledHmmLikelihood(r.alph, r.trans, r.emis, "")); r.name = "rescaled"; }
     else if (kind == 1) { r.lik.reset(new bpp::LowMemoryRescaledHmmLikelihood(r.alph, r.trans, r.emis, "", chunk)); r.name = "lowmem"; }
     else { r.lik.reset(new bpp::LogsumHmmLikelihood(r.alph, r.trans, r.emis, "")); r.name = "logsum"; }
@@ -293,7 +300,8 @@ public:
     Ref ref; computeRef(m, currentP(), var, ref);
     LD tolRel = 1e-8L, tolAbs = 1e-9L;
     LD tolPost = 1e-8L + 64 * 2.2e-16L * fabsl(ref.logL.v) * sqrtl(static_cast<LD>(m.L));     // rounding of exp(log f + log b - logL)
-    if (k == 1 && (what % 9 == 5 || what % 9 == 6)) { ctx.outcome("not-implemented"); return; }   // the low-memory class documents derivatives as unimplemented
+    if (k == 1 && (what % 9 == 5 || what % 9 == 6)) { ctx.outcome("not-implemented"); return; }
+    if (shared && (what % 9 == 5 || what % 9 == 6)) { ctx.outcome("skip"); return; }   // a shared emission object holds the derivative table of ONE variable at a time (interface design)   // the low-memory class documents derivatives as unimplemented
     try {
       switch (what % 9) {
         case 0: case 1: {
@@ -372,7 +380,9 @@ public:
     for (int t = 0; t < 2; ++t) { std::vector<double>& M = t ? m.B : m.A; M.assign(m.n * m.n, 0.0);
       for (size_t i = 0; i < m.n; ++i) { double tot = 0; for (size_t j = 0; j < m.n; ++j) { double v = (j == i || j == (i + 1) % m.n) ? 0.2 + nxt() : (nxt() < 0.5 ? 0.0 : nxt()); M[i * m.n + j] = v; tot += v; } for (size_t j = 0; j < m.n; ++j) M[i * m.n + j] /= tot; } }
     size_t chunk = static_cast<size_t>(1 + p.geti("chunk") % static_cast<long>(m.L + 1));
-    for (int k = 0; k < 3; ++k) buildReplica(rep[k], k, chunk);
+    shared = p.geti("shared") != 0;
+    for (int k = 0; k < 3; ++k) buildReplica(rep[k], k, chunk, shared);
+    if (shared) ctx.probe("replicas-share-components");
     tAlph = std::make_shared<SimAlphabet>(m.n); tMat = makeTrans(tAlph);
     pnames = rep[0].lik->getParameters().getParameterNames();
     for (int k = 1; k < 3; ++k) ctx.check(rep[k].lik->getParameters().getParameterNames() == pnames, "model-mismatch:parameter-names", "model-mismatch:parameter-names", "replicas expose different parameters");
@@ -414,7 +424,10 @@ public:
       }
       bool bad = badAt >= 0 && static_cast<size_t>(badAt) < names.size();
       int raised = 0;
-      for (size_t k = 0; k < 3; ++k) {
+      static const size_t ORD[6][3] = {{0, 1, 2}, {0, 2, 1}, {1, 0, 2}, {1, 2, 0}, {2, 0, 1}, {2, 1, 0}};
+      const size_t* ord = ORD[static_cast<size_t>(o.d / 3) % 6];        // which handle receives the new values first
+      for (size_t kk = 0; kk < 3; ++kk) {
+        size_t k = ord[kk];
         try {
           if (route == 0) rep[k].lik->setParameterValue(names[0], vals[0]);
           else if (route == 1) rep[k].lik->setParametersValues(pl);
@@ -460,12 +473,13 @@ public:
     i.rule = "plans: seeded interleavings of broadcast parameter updates (single / bulk / match, with a rejected entry at a plan-chosen position), break-point changes and reads (log-likelihood, posteriors, per-site likelihoods, first/second derivatives, transition matrix / stationary vector in every query order) on a plan-chosen replica; non-trivial = >=3 accepted updates or break-point changes and >=1 read-order perturbation or rejected update; distinct = distinct fingerprint of the executed op-kind/outcome sequence";
     i.simTime = "steps (no clock in this component)";
     i.faultKinds = {"read-order", "reject@k"};
-    i.probeNames = {"path-enumeration-compared", "posterior-compared", "first-derivative-compared", "second-derivative-compared", "getPij-read-before-eqfreq", "break-points-set", "transition-parameter-updated", "long-sequence", "fresh-replica-compared"};
+    i.probeNames = {"path-enumeration-compared", "posterior-compared", "first-derivative-compared", "second-derivative-compared", "getPij-read-before-eqfreq", "break-points-set", "transition-parameter-updated", "long-sequence", "fresh-replica-compared", "replicas-share-components"};
     i.assumptions = {"reads a class documents as unimplemented (NotImplementedException) are recorded and skipped",
                      "derivatives are taken with respect to emission parameters only (the interface differentiates through HmmEmissionProbabilities)",
                      "built-in transition models are driven with coordinates in [0.15,0.85] so that the chain mixes fast enough for the library's fixed 256-step power to reach the stationary vector to 1e-9",
                      "a one-state auto-correlation model is excluded (its documented off-diagonal formula divides by n-1)",
-                     "break points are ascending positions in 1..L-1"};
+                     "break points are ascending positions in 1..L-1",
+                     "when the three likelihoods share their component objects, derivative reads are skipped (a shared emission object holds the derivative table of one variable at a time) and reads only happen after an update has been broadcast to every handle"};
     i.tolerances["logL"] = "|a-b| <= 1e-9 + 1e-8*max(|a|,|b|) against a long-double reference";
     i.tolerances["posterior"] = "1e-8 + 64*eps*|logL|*sqrt(L) absolute (entries and row sums)";
     i.tolerances["derivatives"] = "1e-7 absolute + 1e-6 relative against exact forward-mode derivatives of the reference";
@@ -484,13 +498,14 @@ public:
     p.cfg["wide"] = rng.chance(0.4) ? 1 : 0;
     p.cfg["chunk"] = rng.chance(0.3) ? rng.below(4) : rng.below(L + 1);
     p.cfg["finalorder"] = rng.below(1000);
+    p.cfg["shared"] = rng.chance(0.3) ? 1 : 0;
     long n = L > 200 ? rng.range(3, 8) : rng.range(3, 25);
     std::vector<double> w = {3, 1, 5, 1.5};
     for (auto& x : w) if (rng.chance(0.2)) x *= 2.5;
     static const char* K[] = {"upd", "bp", "read", "tread"};
     for (long i = 0; i < n; ++i) {
       Op o(K[rng.weighted(w)]);
-      o.a = rng.below(1 << 20); o.b = rng.below(1 << 20); o.c = rng.below(5000); o.d = rng.below(6);
+      o.a = rng.below(1 << 20); o.b = rng.below(1 << 20); o.c = rng.below(5000); o.d = rng.below(18);
       o.x = rng.unit();
       if (o.k == "read") { o.a = rng.below(9); if (rng.chance(0.35)) o.a = 5 + rng.below(2); o.b = rng.below(2); o.d = rng.below(5000); }
       if (o.k == "bp" && rng.chance(0.2)) { o.a = 0; o.b = 0; o.c = 0; }
